@@ -57,6 +57,7 @@ class Func:
         self.decorators = [d for d, nm in zip(node.decorator_list, dnames)
                            if nm.split(".")[-1] not in ("lru_cache", "cache") and not (cls is not None and nm in ("staticmethod", "property"))]
         self.is_method = cls is not None and not self.is_static and bool(self.posparams) and self.posparams[0] == "self"
+        self.is_generator = _has_yield(node)
 
     @property
     def params(self):
@@ -65,6 +66,21 @@ class Func:
 
     def __repr__(self):
         return "<Func %s>" % self.qname
+
+
+def _own_nodes(fnode):
+    """the nodes of a function body, not descending into nested functions / lambdas / classes"""
+    stack = list(fnode.body)
+    while stack:
+        n = stack.pop()
+        yield n
+        for ch in ast.iter_child_nodes(n):
+            if not isinstance(ch, (ast.FunctionDef, ast.AsyncFunctionDef, ast.Lambda, ast.ClassDef)):
+                stack.append(ch)
+
+
+def _has_yield(fnode):
+    return any(isinstance(n, (ast.Yield, ast.YieldFrom)) for n in _own_nodes(fnode))
 
 
 def local_names(fnode):
